@@ -608,9 +608,14 @@ func (m *Matcher) run(st state) {
 		rcall, rIsCall := r.(*Call)
 		if wIsCall && rIsCall && m.IsPair != nil && m.IsPair(wcall.Callee, rcall.Callee) {
 			m.Res.Pairs[core.FuncName(wcall.Callee)+" ~ "+core.FuncName(rcall.Callee)] = true
-			m.checkLabels(st, w, r, m.callLabel(wfr, wcall, true), m.callLabel(rfr, rcall, false), wfr, rfr, false)
-			st.w, st.r = wc.advance(), rc.advance()
-			continue
+			if singleValuePair(wcall, rcall) {
+				m.checkLabels(st, w, r, m.callLabel(wfr, wcall, true), m.callLabel(rfr, rcall, false), wfr, rfr, false)
+				st.w, st.r = wc.advance(), rc.advance()
+				continue
+			}
+			// a pair that carries several values (a section helper writing a blob and its count, reading
+			// one through a pointer and returning the other): which value goes where is only visible
+			// inside, so both sides are followed here (the pair is still judged on its own)
 		}
 		if wIsCall {
 			if nc := m.inline(wcall, wc, wfr); nc != nil {
@@ -902,6 +907,12 @@ func (m *Matcher) relabel(fr *frame, lbl string) string {
 		var idx int
 		if _, err := fmt.Sscanf(head, "p%d:", &idx); err == nil && idx < len(fr.ctx.Params) && fr.ctx.Params[idx] != nil {
 			if s, ok := fr.subst[fr.ctx.Params[idx]]; ok {
+				// a store through a pointer parameter bound to &x designates x
+				if rest == "" && strings.HasPrefix(s, "&") {
+					if _, isPtr := fr.ctx.Params[idx].Type().(*types.Pointer); isPtr {
+						return strings.TrimPrefix(s, "&")
+					}
+				}
 				return s + rest
 			}
 		}
@@ -3020,4 +3031,24 @@ func (m *Matcher) fieldNeverSet(fr *frame, label string) bool {
 		return true
 	})
 	return !set
+}
+
+// singleValuePair: the reader side takes nothing beside the stream (its result is the value read): the
+// call sites can be compared by one label each. A reader that is handed places to store into
+// (pointer parameters) restores several values, and which goes where is only visible inside.
+func singleValuePair(w, r *Call) bool {
+	wn := 0
+	for i := range w.Expr.Args {
+		if i != w.StreamArg {
+			wn++
+		}
+	}
+	rn := 0
+	for i := range r.Expr.Args {
+		if i != r.StreamArg {
+			rn++
+		}
+	}
+	_ = wn
+	return rn == 0
 }
